@@ -151,10 +151,14 @@ PROPS["C12"] = {
     "rule": ("the victim is a real otr3 conversation in a real session with the reference party; steps: victim start/answer/abort, reference sends SMP1..4 or abort, each honest or with one deviation: field i := {0,1,p-1,p,p+1,q,random,+1,-1}, "
              "element count +1/-1/2^32-1, truncated value, empty value, question without NUL, prover exponents a2/a3/b2/b3 forced to 0 or q, Pb=1 & Qb=0|p with recomputed proof. The shadow (reference SMP arithmetic fed with the victim's recorded random exponents, "
              "self-checked by reproducing the victim's own SMP1/SMP2 byte-exactly) accepts or rejects each message per the specification including group membership; Success may be raised only when it accepts and the secrets are equal. "
-             "Afterwards: abort, then a fresh honest run each way must succeed. Non-trivial: a deviant message (MAC valid) reached the SMP automaton."),
+             "Afterwards: abort, then a fresh honest run each way must succeed. Non-trivial: a deviant message (MAC valid) reached the SMP automaton. "
+             "C12blocks/C12longblocks: messages that deviate by the company they keep - every block of one or two TLVs out of {disconnect, padding, unknown, SMP1, SMP1Q, SMP2, SMP3, SMP4, abort} (well-formed messages of a run between two reference provers) "
+             "in each honest pre-state (idle, asked, answered, started), both versions, and generated blocks of 3-6 TLVs; no success, no crash, and a fresh honest run each way succeeds afterwards, in the next session when the block ended this one."),
     "assumptions": COMMON_ASSUME,
-    "exhaustive_checks": ["C12degenerate", "C12fields", "C12usercalls"],
+    "exhaustive_checks": ["C12degenerate", "C12fields", "C12usercalls", "C12blocks"],
     "tests": [
+        {"name": "TestProp_C12_Blocks", "kind": "plain", "quick": {"shards": 8, "timeout": 600}, "thorough": {"shards": 16, "timeout": 3000}},
+        {"name": "TestProp_C12_LongBlocks", "quick": {"shards": 2, "checks": 40, "timeout": 600}, "thorough": {"shards": 8, "checks": 1500, "timeout": 3000}},
         {"name": "TestProp_C12_Deviant", "quick": {"shards": 8, "checks": 10, "timeout": 500}, "thorough": {"shards": 16, "checks": 150, "timeout": 3000}},
         {"name": "TestProp_C12_Fields", "kind": "plain", "quick": {"shards": 8, "timeout": 500}, "thorough": {"shards": 16, "timeout": 3000}},
         {"name": "TestProp_C12_Degenerate", "kind": "plain", "quick": {"shards": 4, "timeout": 500}, "thorough": {"shards": 4, "timeout": 3000}},
